@@ -22,6 +22,7 @@ import (
 	"strings"
 	"sync"
 	"syscall"
+	"time"
 
 	"github.com/rs/zerolog"
 	"github.com/theparanoids/crypki/proto"
@@ -361,12 +362,12 @@ func (h *shandler) Generate(p *csr.ReqParam) ([]csr.AgentKey, error) {
 }
 
 type skey struct {
-	csrs     []*proto.SSHCertificateSigningRequest
+	csrs      []*proto.SSHCertificateSigningRequest
 	addErr    string
 	addPanic  bool
 	csrsPanic bool
-	pub      ssh.PublicKey
-	idx      int
+	pub       ssh.PublicKey
+	idx       int
 }
 
 func (k *skey) CSRs() []*proto.SSHCertificateSigningRequest {
@@ -621,7 +622,12 @@ func runGS(args []string) []string {
 			signer.replies = strings.Split(r["ca"], "|")
 		}
 		nChalBefore := len(chals)
+		// the request context: one with a deadline, as cmd/gensign sets it up (even runs), or none
 		ctx := context.Background()
+		cancelCtx := func() {}
+		if ri%2 == 0 {
+			ctx, cancelCtx = context.WithTimeout(ctx, 60*time.Second)
+		}
 		var theSigner csr.Signer = signer
 		if r["ca"] == "realdown" || r["ca"] == "realdead" {
 			// the real crypki signer: unreachable CA, and (realdead) a request context already over
@@ -637,6 +643,7 @@ func runGS(args []string) []string {
 			}
 		}
 		runErr := gensign.Run(ctx, param, handlers, theSigner)
+		cancelCtx()
 		cc.Close()
 		res := "ok"
 		if runErr != nil {
